@@ -18,7 +18,7 @@ pub fn odict_to(d: &Option<Dict>) -> J { match d { Some(d) => dict_to(d), None =
 
 pub fn dt_to(d: &DateTime) -> J {
     json!({"t":"dt","secs": d.timestamp(), "ns": d.timestamp_subsec_nanos(), "nsl": d.nanosecond(), "off": d.offset().fix().local_minus_utc(),
-           "tz": d.timezone().name(), "short": d.timezone_short_name(),
+           "tz": d.timezone().name(), "short": std::panic::catch_unwind(std::panic::AssertUnwindSafe(|| d.timezone_short_name())).ok(),
            "local": [d.year(), d.month(), d.day(), d.hour(), d.minute(), d.second()]})
 }
 
